@@ -156,6 +156,120 @@ func checkC20(c *Ctx, r *Report) {
 		r.Check(rangesString(set) == pw.want, "ipmi.EntityInstance."+pw.m+"|true-set", f.Pos(), rangesString(set), "true-set is "+rangesString(set)+", want "+pw.want)
 	}
 
+	// every other place that classifies an instance by comparing it with a constant draws the
+	// line where the two predicates do
+	r.Rule("entity-instance-boundaries", "every comparison of an entity instance with a constant, in any method of the type, separates whole classes: 0x00..0x5F, 0x60..0x7F, 0x80..0xFF", 2)
+	if ei := c.Named("pkg/ipmi", "EntityInstance"); ei == nil {
+		r.Lost("ipmi.EntityInstance")
+	} else {
+		for _, fn := range c.LibFuncs() {
+			rv := fn.Signature.Recv()
+			if rv == nil || len(fn.Params) == 0 {
+				continue
+			}
+			if n, ok := rv.Type().(*types.Named); !ok || n.Obj() != ei.Obj() {
+				continue
+			}
+			recv := fn.Params[0]
+			fromRecv := func(v ssa.Value) bool {
+				for i := 0; i < 3; i++ {
+					if v == ssa.Value(recv) {
+						return true
+					}
+					cv, ok := v.(*ssa.Convert)
+					if !ok {
+						if ct, ok2 := v.(*ssa.ChangeType); ok2 {
+							v = ct.X
+							continue
+						}
+						return false
+					}
+					// only width-preserving conversions keep the value
+					if typeBits(cv.Type().Underlying()) < 8 {
+						return false
+					}
+					v = cv.X
+				}
+				return false
+			}
+			rawInstrs(fn, false, func(in ssa.Instruction) {
+				b, ok := in.(*ssa.BinOp)
+				if !ok {
+					return
+				}
+				var k int64
+				var isK, flipped bool
+				switch {
+				case fromRecv(b.X):
+					k, isK = constInt(b.Y)
+				case fromRecv(b.Y):
+					k, isK = constInt(b.X)
+					flipped = true
+				}
+				if !isK {
+					return
+				}
+				holds := func(v int64) (bool, bool) {
+					x, y := v, k
+					if flipped {
+						x, y = k, v
+					}
+					switch b.Op {
+					case token.LSS:
+						return x < y, true
+					case token.LEQ:
+						return x <= y, true
+					case token.GTR:
+						return x > y, true
+					case token.GEQ:
+						return x >= y, true
+					case token.EQL:
+						return x == y, true
+					case token.NEQ:
+						return x != y, true
+					}
+					return false, false
+				}
+				if _, cmp := holds(0); !cmp {
+					return
+				}
+				if b.Op == token.EQL || b.Op == token.NEQ {
+					return // a test for one particular instance is not a classification
+				}
+				// the comparison must not cut through a class
+				okCut := true
+				for _, cls := range [][2]int64{{0x00, 0x5f}, {0x60, 0x7f}, {0x80, 0xff}} {
+					first, _ := holds(cls[0])
+					for v := cls[0]; v <= cls[1]; v++ {
+						if h, _ := holds(v); h != first {
+							okCut = false
+						}
+					}
+				}
+				r.Check(okCut, "ipmi.EntityInstance."+fn.Name()+"|"+b.Op.String()+fmt.Sprintf(" %#x", k), b.Pos(), "separates whole classes", fmt.Sprintf("the comparison with %#x cuts through a class: system-relative instances are 0x00..0x5F, device-relative 0x60..0x7F", k))
+			})
+		}
+	}
+
+	// two's complement "of every width used on the wire": the 10-bit M, B and accuracy and
+	// the 4-bit exponents of the Full Sensor Record are sign-extended from exactly those widths
+	// (layout rule shared with C07/C15, restricted to the signed fields)
+	r.Rule("twos-complement-widths", "M, B and accuracy are sign-extended from 10 bits, the R and B exponents from 4 bits", 5)
+	for _, sp := range specsFor(responseSpecs, "FullSensorRecord") {
+		sub := sp
+		sub.Want = map[string][]string{}
+		for k, v := range sp.Want {
+			for _, e := range v {
+				if strings.HasPrefix(e, "sext") {
+					sub.Want[k] = v
+				}
+			}
+		}
+		if len(sub.Want) > 0 {
+			compareSpec(c, r, []layerSpec{sub}, "field", nil)
+		}
+	}
+
 	r.Rule("time-unit-table", "rolling-average time units 0,1,2,3 are 1, 60, 3600, 86400 seconds", 1)
 	if f := c.uniqueFuncBySig("pkg/dcmi", "secondsMultiplier", "func(uint8)(int)"); f == nil {
 		r.Lost("dcmi.secondsMultiplier")
